@@ -250,7 +250,8 @@ class Interp(object):
     def _native(self, f, args, kwargs):
         """Call a builtin / standard-library / sym-class callable natively."""
         owner = getattr(f, '__self__', None)
-        trusted = isinstance(owner, (SInt, SBool, SBuf)) or isinstance(f, type) and issubclass(f, BaseException)
+        trusted = (isinstance(owner, (SInt, SBool, SBuf)) or isinstance(f, type) and issubclass(f, BaseException)
+                   or getattr(type(owner), '_pyvc_trusted', False) or getattr(f, '_pyvc_trusted', False))
         try:
             return f(*args, **kwargs)
         except EngineError:
